@@ -23,6 +23,8 @@ type overlapCase struct {
 	A, B       Op
 	GateKind   int
 	GateN      int
+	Point      string // internal schedule point A was parked at (GateInternal)
+	WantPoint  string // GateInternal: only this point counts (empty = any)
 	Parked     bool
 	BBlocked   bool
 	AObs       *kit.Obs
@@ -46,6 +48,7 @@ type overlapOpts struct {
 	ExtraScopes int                        // larger scope trees
 	ExtraWarm   int                        // more warm-up resolutions (so that scopes own instances)
 	Prep        func(*kit.World, *rapid.T) // prepare the world before Build (fault plans)
+	Points      []string                   // GateInternal: park at the n-th passage of one of these named points (nil = any point)
 }
 
 func obsOfKind(r *kit.Runner, from int, kind string) *kit.Obs {
@@ -184,10 +187,18 @@ func genOverlap(rt *rapid.T, oo overlapOpts) *overlapCase {
 	if c.A.Ctx == 10 {
 		c.GateKind = kit.GateCtxDone
 	}
-	if c.A.Kind == "close" {
+	if c.A.Kind == "close" && c.GateKind != kit.GateInternal {
 		c.GateKind = kit.GateCloseEnter
 	}
 	c.GateN = rapid.SampledFrom([]int{1, 1, 1, 2, 3, 4}).Draw(rt, "gaten")
+	if c.GateKind == kit.GateInternal {
+		// an operation passes a dozen internal schedule points (more with nested constructions)
+		c.GateN = rapid.IntRange(1, 14).Draw(rt, "gatenInternal")
+		if len(oo.Points) > 0 {
+			c.WantPoint = rapid.SampledFrom(oo.Points).Draw(rt, "gatepoint")
+			c.GateN = rapid.SampledFrom([]int{1, 1, 1, 2, 3}).Draw(rt, "gatenPoint")
+		}
+	}
 	// B
 	anc := x.R.Ancestors(atag)
 	switch bk := rapid.SampledFrom(oo.BKinds).Draw(rt, "bkind"); bk {
@@ -225,6 +236,27 @@ func genOverlap(rt *rapid.T, oo overlapOpts) *overlapCase {
 		}
 	case "get":
 		c.B = Op{Kind: "get", Scope: rapid.SampledFrom(live).Draw(rt, "btag"), Ident: rapid.SampledFrom(ids).Draw(rt, "bid2")}
+	case "dependent-get":
+		// B resolves, in A's scope, something that depends on what A is resolving
+		c.B = Op{Kind: "get", Scope: atag, Ident: rapid.SampledFrom(ids).Draw(rt, "bid3")}
+		if aow, ok := x.M.Owner(c.A.Ident); ok && c.A.Kind == "get" {
+			var deps []kit.Ident
+			for _, id := range ids {
+				if id.Group != "" {
+					for _, mem := range x.M.Members(id.T, id.Group) {
+						if x.M.Reaches(mem.Reg, aow.Reg) {
+							deps = append(deps, id)
+							break
+						}
+					}
+				} else if ow, ok := x.M.Owner(id); ok && x.M.Reaches(ow.Reg, aow.Reg) {
+					deps = append(deps, id)
+				}
+			}
+			if len(deps) > 0 {
+				c.B.Ident = rapid.SampledFrom(deps).Draw(rt, "bdep")
+			}
+		}
 	case "create":
 		c.B = Op{Kind: "create", Scope: rapid.SampledFrom(live).Draw(rt, "bctag"), Ctx: rapid.SampledFrom([]int{0, 1}).Draw(rt, "bctx")}
 	}
@@ -245,7 +277,7 @@ func (c *overlapCase) run() {
 	var aGoid atomic.Int64
 	count := 0
 	pk := kit.NewParker(func(gp kit.GatePoint) bool {
-		if gp.Goid != aGoid.Load() || gp.Kind != c.GateKind {
+		if gp.Goid != aGoid.Load() || gp.Kind != c.GateKind || (c.WantPoint != "" && gp.Point != c.WantPoint) {
 			return false
 		}
 		count++ // only thread A gets here, no lock needed
@@ -346,7 +378,12 @@ func (c *overlapCase) run() {
 	if !x.R.PClosed {
 		x.exec(Op{Kind: "pclose"})
 	}
-	c.Desc = fmt.Sprintf("config: %s\nsetup: %s\nA: %s parked at gate kind %d #%d (parked=%v)\nB: %s (blocked-until-release=%v)", x.Cfg, scriptString(x.Script[:max(0, len(x.Script)-3)]), c.A, c.GateKind, c.GateN, c.Parked, c.B, c.BBlocked)
+	where := ""
+	if c.Parked && pk.Hit.Point != "" {
+		where = " = " + pk.Hit.Point
+		c.Point = pk.Hit.Point
+	}
+	c.Desc = fmt.Sprintf("config: %s\nsetup: %s\nA: %s parked at gate kind %d #%d%s (parked=%v)\nB: %s (blocked-until-release=%v)", x.Cfg, scriptString(x.Script[:max(0, len(x.Script)-3)]), c.A, c.GateKind, c.GateN, where, c.Parked, c.B, c.BBlocked)
 }
 
 // checkOverlapResults: no panic, no hang, and each of A/B either completed
@@ -413,6 +450,9 @@ func (c *overlapCase) checkOverlapResults(prop string) *Failure {
 
 func (c *overlapCase) labels() []string {
 	l := []string{"A:" + c.A.Kind, "B:" + c.B.Kind, fmt.Sprintf("gate:%d", c.GateKind)}
+	if c.Point != "" {
+		l = append(l, "at:"+c.Point)
+	}
 	if c.Parked {
 		l = append(l, "parked")
 	}
@@ -425,7 +465,7 @@ func (c *overlapCase) labels() []string {
 	return l
 }
 
-var allGates = []int{kit.GateCtorEnter, kit.GateCtorExit}
+var allGates = []int{kit.GateCtorEnter, kit.GateCtorExit, kit.GateInternal, kit.GateInternal}
 
 func runOverlapTest(t *testing.T, prop, part, rule string, oo overlapOpts, oracle func(c *overlapCase) *Failure, nt func(c *overlapCase) bool) {
 	col := evid.New(prop, part, rule)
@@ -497,7 +537,7 @@ func TestC13Schedules(t *testing.T) {
 
 func closeOverlapOpts() overlapOpts {
 	return overlapOpts{Gen: dispOpts(), AKinds: []string{"close"}, BKinds: []string{"close-ancestor", "close-ancestor", "pclose", "cancel"},
-		GateKind: []int{kit.GateCloseEnter}, ExtraWarm: 6, ExtraScopes: 4,
+		GateKind: []int{kit.GateCloseEnter, kit.GateCloseEnter, kit.GateInternal}, ExtraWarm: 6, ExtraScopes: 4,
 		Prep: func(w *kit.World, rt *rapid.T) {
 			regs := map[int]bool{}
 			for _, r := range w.Cfg.Regs {
@@ -518,6 +558,27 @@ func TestC11Schedules(t *testing.T) {
 				return f
 			}
 			return c.X.checkC11()
+		},
+		func(c *overlapCase) bool { return true })
+}
+
+// TestC11GetSchedules: two resolutions in one scope overlap. Whatever order
+// their instances end up in the scope's disposal list, a dependency must
+// outlive its dependents.
+func TestC11GetSchedules(t *testing.T) {
+	g := dispOpts()
+	g.ChainBias = true
+	oo := overlapOpts{Gen: g, AKinds: []string{"get"}, BKinds: []string{"same-get", "get", "dependent-get", "dependent-get", "dependent-get"},
+		GateKind: []int{kit.GateInternal, kit.GateInternal, kit.GateCtorExit}, ExtraWarm: 1,
+		Points: []string{"scope.setInstance.tracked", "scope.setInstance.tracked", "scope.resolve.miss", "scope.resolve.locked", "scope.Get.checked"}}
+	runOverlapTest(t, "C11", "get-schedules",
+		"controlled two-thread programs: thread A resolves a service and is parked at the n-th schedule point inside godi (after a cache miss, after taking the construction lock, between tracking an instance for disposal and publishing it in the scope's cache) or at a constructor exit; thread B resolves the same or another service of the same scope (often one that depends on what A is constructing) to completion or until it blocks; A is released, everything is closed; oracle: no instance is closed while an instance of the same owner that received it as a dependency is still open (the unambiguous core of the order rule when constructions overlap), no hang, no panic; non-trivial = A was parked",
+		oo,
+		func(c *overlapCase) *Failure {
+			if f := c.checkOverlapResults("C11"); f != nil && (f.Oracle == "no-hang" || f.Oracle == "no-panic") {
+				return f
+			}
+			return c.X.checkC11Deps()
 		},
 		func(c *overlapCase) bool { return true })
 }
@@ -633,6 +694,9 @@ func genMulti(rt *rapid.T, gen kit.GenOpts) *mcase {
 		if rapid.IntRange(0, 9).Draw(rt, "gated") < 7 {
 			th.GateKind = rapid.SampledFrom(allGates).Draw(rt, "gk")
 			th.GateN = rapid.SampledFrom([]int{1, 1, 1, 2}).Draw(rt, "gn")
+			if th.GateKind == kit.GateInternal {
+				th.GateN = rapid.IntRange(1, 8).Draw(rt, "gnInternal")
+			}
 		}
 		c.Threads = append(c.Threads, th)
 	}
